@@ -57,7 +57,8 @@ def gen_plan(prop, run_seed, tier):
     s.shuffle(order)
     return dict(engine="holdersim", prop=prop, screen=spec, model=model, D=w.randint(1, 3), seed=w.randrange(2**31),
                 big=big, steps=ops, chains=dict(lens=lens, order=order, real=(s.random() < (0.15 if tier == "quick" else 0.3)),
-                                                train_seed=s.randrange(1000)))
+                                                train_seed=s.randrange(1000),
+                                                open_fault=(s.random() if s.random() < 0.35 else None)))
 
 
 _LOOKUP = {}
@@ -338,7 +339,25 @@ def _chains(plan, scratch, log, stats, violation):
         return
     out = scratch.file("model_evaluation.h5")
     try:
-        pipe.p_evaluate(tpath, files, out, entropy=pipe.h64(plan["seed"], "eval"))
+        tf = ch.get("open_fault")
+        if tf is not None:
+            # fault transient.h5.open: one of the file opens of the evaluation process fails once (lock still held).  The
+            # process may die -- it is then run again -- or cope; what it publishes is judged as always
+            fpts = launch.FaultPoints({"h5.open": 1 + int(tf * (len(files) + 1)) % (len(files) + 1)})
+            try:
+                with fpts:
+                    pipe.p_evaluate(tpath, files, out, entropy=pipe.h64(plan["seed"], "eval"))
+            except pipe.HarnessError:
+                raise
+            except Exception:
+                if not fpts.fired:
+                    raise
+                stats.probe("evaluate_died_on_transient_fault")
+                pipe.p_evaluate(tpath, files, out, entropy=pipe.h64(plan["seed"], "eval"))
+            if fpts.fired:
+                stats.fault("transient.h5.open")
+        else:
+            pipe.p_evaluate(tpath, files, out, entropy=pipe.h64(plan["seed"], "eval"))
     except pipe.HarnessError:
         raise
     except Exception as e:
